@@ -35,7 +35,7 @@ SizeVecs(P) ==
       [] P = 5 -> {<<C("1"), C("2"), Lin("1/2", "1"), C("3"), Exp("2", "1")>>, <<C("2"), C("1"), C("1/2"), C("3"), C("1")>>}
 Migs(P) ==
     CASE P = 1 -> {Zero(1)}
-      [] P = 2 -> {Mig(2, {<<1, 2, "1/2">>})} \cup (IF Rich \/ Gen \/ MaxBlocks >= 4 THEN {Zero(2)} ELSE {})
+      [] P = 2 -> {Mig(2, {<<1, 2, "1/2">>})} \cup (IF Rich \/ Gen THEN {Zero(2)} ELSE {})
                   \cup (IF Rich \/ Gen THEN {Mig(2, {<<1, 2, "1">>, <<2, 1, "1">>})} ELSE {})
       [] P = 3 -> {Mig(3, {<<1, 3, "1/2">>, <<3, 2, "1">>})} \cup (IF Rich THEN {Zero(3), Mig(3, {<<1, 2, "1">>, <<2, 1, "1">>})} ELSE {})
       [] P = 4 -> {Zero(4), Mig(4, {<<1, 4, "1/2">>, <<2, 1, "1">>, <<4, 3, "1/4">>})}
